@@ -141,9 +141,12 @@ def gen_history(rng, kind, H, n_ops):
             ops.append(["print_empty", rng.choice(["print", "print", "log"])])
         elif r < 0.36:
             ops.append(["line", rng.choice([1, 1, 2])])
-        elif r < 0.44:
+        elif r < 0.42:
             pi += 1
             ops.append(["pyprint", "y%d" % pi, rng.choice(["stdout", "stderr"])])
+        elif r < 0.44:
+            pi += 1
+            ops.append(["pywrite", "w%d" % pi, rng.choice(["stdout", "stderr"])])
         elif r < 0.50:
             ops.append(["refresh"])
         elif r < 0.54:
@@ -200,6 +203,8 @@ class Session:
         self.redraws = 0
         self.heights = set()
         self.full_height_transient_stop = False
+        self.pending = {}
+        self.flushed_at_stop = False
         self.obj = self._make()
 
     def _make(self):
@@ -314,11 +319,18 @@ class Session:
             self._twin_log(op[1])
             if self.live_on():
                 self._drew()
+        elif k == "pywrite":
+            # a fragment without a line end (print(..., end="")): it waits in the redirect until its line is
+            # completed, or until the display stops
+            stream = sys.stdout if op[2] == "stdout" else sys.stderr
+            if self.live_on():
+                stream.write(op[1])
+                self.pending[op[2]] = self.pending.get(op[2], "") + op[1]
         elif k == "pyprint":
             stream = sys.stdout if op[2] == "stdout" else sys.stderr
             if self.live_on():
                 stream.write(op[1] + "\n")
-                self.printed.append(op[1])
+                self.printed.append(self.pending.pop(op[2], "") + op[1])
                 self._drew()
             # (when no live display is running, stdout is the real one: nothing to do)
         elif k == "refresh":
@@ -350,6 +362,13 @@ class Session:
             self.obj.stop()
             self.started = False
             if was:
+                # fragments still waiting in the redirected streams are handed over as lines of their own, above
+                # the final frame (stdout's first)
+                for name in ("stdout", "stderr"):
+                    frag = self.pending.pop(name, "")
+                    if frag:
+                        self.printed.append(frag)
+                        self.flushed_at_stop = True
                 final = self._expected_frame(final=True)
                 self.heights.add(len(final))
                 if self.cfg["transient"] or self.kind == "status":
